@@ -81,3 +81,24 @@ def selftest(ctx, traces, bad):
             continue
         return
     raise vlib.Infra("binding self-test: no corrupted runtime trace was rejected")
+
+
+def registration_races(ctx, binary=None):
+    """Directed schedules (real time, no bubble; harness/c17 race_test.go): an event is being delivered while a registration is
+    half-way through and holds the registration lock - one that will be rejected and rolled back (a crash of the delivery goroutine
+    takes the process down), and one that is accepted and appends to the routing table the delivery goroutine has just read."""
+    binary = binary or vlib.go_build_test(ctx, "c17")
+    for test in ("TestRejectedRegistrationRace", "TestAcceptedRegistrationRace"):
+        rc, o = vlib.go_run(ctx, binary, test, {}, timeout=600, allow_fail=True)
+        ctx.cov["registration_race_rounds"] = ctx.cov.get("registration_race_rounds", 0) + 3
+        if rc == 0:
+            continue
+        if re.search(r"panic|SIGSEGV|fatal error", o) and "github.com/cosi-project/runtime/pkg/controller/runtime" in o:
+            ctx.violation("runtime-crashed/delivery-during-rejected-registration",
+                          "event delivered while a registration that is rejected and rolled back holds the registration lock: the delivery "
+                          "goroutine crashed the process", {"driver": test, "output": o[o.find("panic"):][:3000]})
+        elif "not notified" in o or "was accepted" in o or "was rejected" in o or "did not return" in o:
+            ctx.violation("registration-race/" + ("notification-lost" if "not notified" in o else "other"),
+                          "registration racing an event delivery (%s): %s" % (test, o[-600:]), {"driver": test, "output": o[-3000:]})
+        else:
+            raise vlib.Infra(test + " failed without a verdict:\n" + o[-3000:])
